@@ -1,0 +1,36 @@
+//go:build verif
+
+package xsrftoken
+
+import "strings"
+
+// C57, escaping clause ("clean(user)+':'+clean(action)"): contracts of clean.
+//
+// strings.ReplaceAll is a deterministic library function (flag `function` in
+// /verif/stdlib/01_xsrfclean.contracts): the calls in clean and the calls in specClean below are the
+// same terms. specClean is the reference escaping of the package documentation, with the order
+// that makes it injective: FIRST the escape character '_' is doubled, THEN ':' is replaced by the
+// escape sequence "_c" (so a "_c" of the output always stems from a ':', because every '_' of the
+// input has become "__"). The other order maps ":" and "_c" to the same text.
+
+//@ pure
+func specReplaceAll(s, old, new string) string { return strings.ReplaceAll(s, old, new) }
+
+//@ pure
+func specClean(s string) string {
+	return specReplaceAll(specReplaceAll(s, "_", "__"), ":", "_c")
+}
+
+// clean: the result is the reference escaping of its argument and contains no ':' (the separators
+// of the MAC input "%s:%s:%d" cannot be forged by a user or action id).
+//
+//@ func clean(s) (r)
+//@   ensures r == specClean(s)
+//@   ensures forall i int :: 0 <= i && i < len(r) ==> r[i] != ':'
+//@   allocates
+
+// generateTokenAtTime: the two strings of the MAC input are the reference escapings of userID and
+// actionID, in this order.
+//
+//@ extend generateTokenAtTime(key, userID, actionID, now) (r)
+//@   assert at call Fprintf: $a[0].(string) == specClean(userID) && $a[1].(string) == specClean(actionID)
